@@ -184,7 +184,10 @@ func propC15(c *Ctx) {
 	c.Rule("C15.R2", func() {
 		fn := c.Method(childKeeper, "L2OracleHandler", "UpdateOracle")
 		o := c.Ob("C15.R2", "L2OracleHandler.UpdateOracle: height gate, then ValidateVoteExtensions(height-1, L1 chain id, decoded) == nil, then votes, aggregation, timestamp presence, WritePrices")
-		po := PO{Params: []string{"k", "ctx", "height", "bz"}, NoInline: []string{"ValidateVoteExtensions", "GetOracleVotes", "WritePrices", "GetLastHeight"}}
+		// every function of the l2connect package stays opaque here (each has its own rule); the
+		// vote decoder is identified by its role - the l2connect call whose result is aggregated -
+		// not by its name
+		po := PO{Params: []string{"k", "ctx", "height", "bz"}, NoInline: []string{"opchild/l2connect.", "GetLastHeight"}}
 		nW := 0
 		for _, p := range c.Paths(fn, po) {
 			o.Paths++
@@ -193,12 +196,16 @@ func propC15(c *Ctx) {
 				return p.Find(func(ev *Event) bool { return ev.Kind == EvCall && strings.HasSuffix(ev.Call.Name, suffix) })
 			}
 			val := find("l2connect.ValidateVoteExtensions")
-			for _, suffix := range []string{"l2connect.GetOracleVotes", "VoteAggregator).AggregateOracleVotes", "l2connect.WritePrices"} {
-				for _, i := range find(suffix) {
-					o.Sites++
-					if len(val) != 1 || val[0] > i || !p.factIs(i, "("+p.Events[val[0]].Call.String()+" == nil)", true) {
-						o.Fail(c.evPos(&p.Events[i]), methodOf(suffix)+" reachable without ValidateVoteExtensions == nil", c.Dump(p, i))
-					}
+			for _, i := range p.Find(func(ev *Event) bool {
+				if ev.Kind != EvCall || ev.Pure && !strings.HasPrefix(ev.Call.Name, "opchild/l2connect.") {
+					return false
+				}
+				n := ev.Call.Name
+				return strings.HasSuffix(n, "VoteAggregator).AggregateOracleVotes") || (strings.HasPrefix(n, "opchild/l2connect.") && !strings.HasSuffix(n, "l2connect.ValidateVoteExtensions"))
+			}) {
+				o.Sites++
+				if len(val) != 1 || val[0] > i || !p.factIs(i, "("+p.Events[val[0]].Call.String()+" == nil)", true) {
+					o.Fail(c.evPos(&p.Events[i]), methodOf(p.Events[i].Call.Name)+" reachable without ValidateVoteExtensions == nil", c.Dump(p, i))
 				}
 			}
 			for _, i := range val {
@@ -232,7 +239,13 @@ func propC15(c *Ctx) {
 				ev := &p.Events[i]
 				a := ev.Call.Args
 				agg := find("VoteAggregator).AggregateOracleVotes")
-				votes := find("l2connect.GetOracleVotes")
+				var votes []int
+				if len(agg) == 1 {
+					// the decoder: the l2connect call whose first result is what gets aggregated
+					votes = p.Find(func(e2 *Event) bool {
+						return e2.Kind == EvCall && strings.HasPrefix(e2.Call.Name, "opchild/l2connect.") && e2.Call.String()+".0" == p.Events[agg[0]].Call.Args[2].String()
+					})
+				}
 				if len(agg) != 1 || len(votes) != 1 {
 					o.Fail(c.evPos(ev), "prices written without one aggregation of one vote decoding", c.Dump(p, i))
 					continue
@@ -245,7 +258,15 @@ func propC15(c *Ctx) {
 					o.Fail(c.evPos(ev), "aggregates other votes than the decoded ones", c.Dump(p, i))
 				}
 				// the votes come from the validated commit
-				if len(val) == 1 && p.Events[votes[0]].Call.Args[1].String() != p.Events[val[0]].Call.Args[4].String() {
+				fromCommit := false
+				if len(val) == 1 {
+					for _, va := range p.Events[votes[0]].Call.Args {
+						if va.String() == p.Events[val[0]].Call.Args[4].String() {
+							fromCommit = true
+						}
+					}
+				}
+				if len(val) == 1 && !fromCommit {
 					o.Fail(c.evPos(ev), "votes decoded from a different commit than the validated one", c.Dump(p, i))
 				}
 				// timestamp: time.Unix(0, prices[ts].Int64()) with ts found
